@@ -49,8 +49,8 @@ EmptyObs == [pages |-> <<>>, npages |-> 0, ncrawled |-> 0, nlinks |-> 0, we |-> 
 (***************************************************************************)
 (* The request of a step, in both machines                                 *)
 (***************************************************************************)
-CreatedStore == [EmptyStore EXCEPT !.wlog = <<[f |-> "H", i |-> 0, app |-> FALSE],
-                                              [f |-> "LH", i |-> 0, app |-> FALSE]>>]
+CreatedStore == [EmptyStore EXCEPT !.wlog = <<[f |-> "H", i |-> 0, app |-> FALSE, b |-> 0],
+                                              [f |-> "LH", i |-> 0, app |-> FALSE, b |-> 0]>>]
 
 ImplFresh(d, rules) ==
   LET r == InstallRules(CreatedStore, EmptyRam, d, rules, 1) IN Res(r.st, 0, <<>>, "")
@@ -134,7 +134,7 @@ ObsClauses(st, rm, d, S, post, o0, o1) ==
       <<"bind.trie",   P.st.trie = post.trie>>,
       <<"bind.links",  P.st.ls = post.ls>>,
       <<"bind.hdr",    P.st.lastId = post.lastId>>,
-      <<"bind.wlog",   P.st.wlog = WriteOrder(S.w)>>,
+      <<"bind.wlog",   WriteOrder(P.st.wlog) = WriteOrder(S.w)>>,
       <<"bind.refine", R.exc = P.exc /\ R.created = P.created /\ R.pages = P.pages
                        /\ R.A.pages = PagesOf(P.st.trie) /\ R.A.we = WeOfBlocks(P.st.trie)>>,
       \* ---- C01 page set fidelity ----
